@@ -199,12 +199,16 @@ def renderBalance (cfg : RCfg) (days : List LogDay) : Bytes :=
   let t := Tree.build (allElements days)
   if cfg.collapse then Tree.printCollapsedChildren 0 t else Tree.printChildren cfg.collapseLast 0 t
 
-/-- `bal -s X`: the food's amount of element X; a directly logged X counts as itself (fix for C03/C07) -/
+/-- what one logged food adds to the single-element balance: its amount of element X under the food's own
+    name; a directly logged X counts as itself (fix for C03/C07) -/
+def balanceSingleOf (db : Book) (x : Bytes) (e : Element) : Elements :=
+  match db.lookup e.name with
+  | some els => (els.filter (fun r => r.name == x)).map (fun r => (⟨e.name, r.value * e.value⟩ : Element))
+  | none => if e.name == x then [⟨e.name, e.value⟩] else []
+
+/-- `bal -s X` -/
 def balanceSingleElements (db : Book) (x : Bytes) (days : List LogDay) : Elements :=
-  ((allElements days).map (fun e =>
-    match db.lookup e.name with
-    | some els => (els.filter (fun r => r.name == x)).map (fun r => (⟨e.name, r.value * e.value⟩ : Element))
-    | none => if e.name == x then [⟨e.name, e.value⟩] else [])).flatten
+  ((allElements days).map (balanceSingleOf db x)).flatten
 
 def renderBalanceSingle (cfg : RCfg) (days : List LogDay) (db : Book) : Bytes :=
   let es := balanceSingleElements db cfg.singleElement days
@@ -244,11 +248,14 @@ def renderQuantity (desc : Bool) (days : List LogDay) : Bytes :=
   let acc := (allElements days).foldl (fun a e => Elements.addTo a e.name e.value) ([] : Elements)
   valueRows (stableByValue desc (Elements.sort acc))
 
+/-- the logged foods the book does not define, each once, in order of first appearance -/
+def unresolvedNames (db : Book) (es : Elements) : Elements :=
+  es.foldl (fun (a : Elements) e =>
+    if (db.lookup e.name).isSome then a else if a.any (·.name == e.name) then a else a ++ [⟨e.name, 0⟩]) []
+
 /-- `report unresolved`: logged foods the book does not define, each once, sorted (fix for C05) -/
 def renderUnresolved (days : List LogDay) (db : Book) : Bytes :=
-  let names := (allElements days).foldl (fun (a : Elements) e =>
-    if (db.lookup e.name).isSome then a else if a.any (·.name == e.name) then a else a ++ [⟨e.name, 0⟩]) []
-  ((Elements.sort names).map (fun e => e.name ++ [10])).flatten
+  ((Elements.sort (unresolvedNames db (allElements days))).map (fun e => e.name ++ [10])).flatten
 
 /-- `report element-total X` on a resolved book -/
 def renderElementTotal (x : Bytes) (desc : Bool) (db : Book) : Bytes :=
